@@ -153,7 +153,40 @@ def run(ctx, anchors=None):
     A = anchors or {"main_file": "btcdeb.cpp", "run": "ContinueScript", "print": "print_stack"}
     from . import common
     entry = common.main_of(fb, A["main_file"])
-    runfn = common.func_calling(fb, A["main_file"], A["run"])    # the function that runs the script to completion
+    # ---- R08.5 the verdict of a run is the boolean the stepping functions return (a finished session is not a successful one:
+    # the end-of-script checks fail *and* finish it): no call of ContinueScript / StepScript(session) / Instance::step may
+    # discard its result
+    ctx.rule("R08.5", "the result of ContinueScript / the session stepper / Instance::step is used at every call site")
+    status_fns = {}
+    for f_ in fb.funcs.values():
+        if f_.body is not None and f_.d.get("ret") == "bool" and ((f_.name in ("ContinueScript", "Instance::step")) or (f_.name == "StepScript" and f_.file.startswith("debugger/"))):
+            status_fns[f_.id] = f_
+    ndisc = 0
+    discarded = []
+    for f_ in fb.funcs.values():
+        if f_.body is None or f_.file.startswith("test/"):
+            continue
+        for n_ in f_.nodes():
+            if astq.is_call(n_) and n_.get("cid") in status_fns:
+                ndisc += 1
+                par = f_.parent(n_)
+                while par is not None and par.get("k") in ("cast", "paren", "opaque"):
+                    par = f_.parent(par)
+                used = par is not None and par.get("k") not in ("block", "compound", "for", "while", "do", "switch", "case", "default", "try") or \
+                    (par is not None and par.get("k") in ("if", "while", "for", "do") and S.contains(par.get("cond"), n_))
+                ctx.site()
+                key = "status-used:%s@%s" % (status_fns[n_["cid"]].name, f_.name)
+                ctx.inst(used, "R08.5", key, f_.loc(n_), "the result of %s decides what %s does next" % (status_fns[n_["cid"]].name, f_.name),
+                         "%s calls %s and drops its result: whether the script failed is then read from somewhere else (a session that failed its end-of-script check is `done` as well)" % (f_.name, status_fns[n_["cid"]].name))
+                if not used:
+                    discarded.append(n_)
+    ctx.floor("R08.5", ndisc, 3, "call sites of the stepping functions")
+    try:
+        runfn = common.func_calling(fb, A["main_file"], A["run"])    # the function that runs the script to completion
+    except AnalysisBroken:
+        if discarded:
+            return      # the driver no longer branches on the run: reported above; the rules below have nothing to anchor on
+        raise
     # the driver: the function of this file with the option handling, from which runfn is reached (main itself, a worker main
     # delegates to, or the caller of a small helper that holds the non-interactive branch): the largest such function
     cands = [runfn]
@@ -380,6 +413,7 @@ def _region(main, ch):
 
 
 MUTANTS = [
+    dict(name="verdict-from-done-flag", file="btcdeb.cpp", find="        if (!ContinueScript(*env)) {", replace="        ContinueScript(*env);\n        if (!instance.at_end()) {", expect=["R08.5:status-used:ContinueScript@main"]),
     dict(name="main-catches-too-little", file="btcdeb.cpp",
          find="} catch (const std::exception& ex) {\n    fprintf(stderr, \"error: exception thrown", replace="} catch (const std::bad_alloc& ex) {\n    fprintf(stderr, \"error: exception thrown",
          expect=["R08.1:escape:main@btcdeb.cpp"]),
